@@ -551,7 +551,7 @@ Definition message_tied (m : message) (w : wiring) : Prop :=
 Lemma message_tied_of_ok mi m w : wiring_ok_c03 mi m w = true -> wiring_ok_c10 mi m w = true -> message_tied m w.
 Proof.
   unfold wiring_ok_c03, wiring_ok_c10. rewrite !andb_true_iff.
-  intros [[_ Hf] Hu] [[[[_ Hr] Hc] Hs] Hg]. unfold message_tied. repeat split.
+  intros [[_ Hf] Hu] [[[[[_ Hr] Hc] Hs] Hg] _]. unfold message_tied. repeat split.
   - intros st Hl. apply wiring_frame_correct; assumption.
   - intros f st Hl. apply wiring_unmarshal_correct; assumption.
   - intros st Hl. eapply wiring_reset_correct; eassumption.
@@ -752,4 +752,42 @@ Proof.
   - generalize dependent (p_nodegens p). induction (db_nodes db) as [|n ns IH]; intros [|ng l] H; cbn in H; try discriminate.
     + constructor.
     + apply andb_true_iff in H. destruct H as [H1 H2]. constructor; [apply nodegen_ok_correct; exact H1|apply IH; exact H2].
+Qed.
+
+(** ** link to C11's model of the enum String() (Gen/Api.v [enum_string]) *)
+Lemma prim_bool_iff_len1 s : (s_length s =? 1) = true -> signal_prim_type s = PBool.
+Proof.
+  intros H. apply Z.eqb_eq in H. unfold signal_prim_type. rewrite H. reflexivity.
+Qed.
+Lemma prim_not_bool s : (s_length s =? 1) = false -> signal_prim_type s <> PBool.
+Proof.
+  intros H. unfold signal_prim_type. rewrite H.
+  repeat match goal with |- context [if ?c then _ else _] => destruct c end; discriminate.
+Qed.
+Lemma lookup_text_find s v : (s_length s =? 1) = false -> forall vds,
+  lookup_text (map (fun vd => (vdesc_value vd, vdesc_text vd)) vds) v =
+  match find (fun vd => case_matches (case_of s vd) v) vds with Some vd => Some (vdesc_text vd) | None => None end.
+Proof.
+  intros H. induction vds as [|vd tl IH]; cbn; [reflexivity|]. unfold case_of at 1. rewrite H. cbn [case_matches].
+  destruct (vdesc_value vd =? v); [reflexivity|exact IH].
+Qed.
+Lemma lookup_text_bool_find s v : (s_length s =? 1) = true -> forall vds,
+  lookup_text_bool (map (fun vd => (vdesc_value vd, vdesc_text vd)) vds) (negb (v =? 0)) =
+  match find (fun vd => case_matches (case_of s vd) v) vds with Some vd => Some (vdesc_text vd) | None => None end.
+Proof.
+  intros H. induction vds as [|vd tl IH]; cbn; [reflexivity|]. unfold case_of at 1. rewrite H. cbn [case_matches].
+  destruct (Bool.eqb (vdesc_value vd =? 1) (negb (v =? 0))); [reflexivity|exact IH].
+Qed.
+Theorem enum_string_spec_is_api hp m s v :
+  has_custom_type s = true -> enum_string_spec m s v = Api.enum_string (signal_api_with hp m s) v.
+Proof.
+  intros Hc. unfold enum_string_spec, Api.enum_string, signal_api_with.
+  cbn [sa_enum sa_prim sa_texts]. rewrite Hc.
+  destruct (s_length s =? 1) eqn:E.
+  - rewrite (prim_bool_iff_len1 s E), (lookup_text_bool_find s v E).
+    destruct (find (fun vd => case_matches (case_of s vd) v) (s_value_descriptions s)); [reflexivity|].
+    destruct (v =? 0); reflexivity.
+  - pose proof (prim_not_bool s E) as Hn. rewrite (lookup_text_find s v E).
+    destruct (signal_prim_type s); try congruence;
+      (destruct (find (fun vd => case_matches (case_of s vd) v) (s_value_descriptions s)); reflexivity).
 Qed.
